@@ -99,54 +99,77 @@ example : IntTy.signed .i16 = true := rfl
 
 /-! ## Floating-point targets (`float`, `double`)
 
-Full statement (NOT proved here): with `FAccepts trailing s q` the language of ISO C 2011 §7.22.1.3
-(white space, sign, decimal or hexadecimal floating numeral of exact value `q`, or `inf` / `infinity` /
-`nan` / `nan(…)`; longest such prefix when `trailing`), success ⇔ `FAccepts trailing s q` ∧ the
-correctly rounded value of `q` lies within the bounds, the result being that value (rounded once more to
-binary32 for `float`); EINVAL ⇔ not in the language; ERANGE otherwise.
+`FAccepts trailing s neg sub` is the language of ISO C 2011 §7.22.1.3 (`Spec/FloatNumeral.lean`): white
+space, sign, then a decimal or hexadecimal floating numeral of exact rational value `q` (`sub = .num q`),
+or `inf` / `infinity` (`.inf`), or `nan` / `nan(…)` (`.nan`); the whole string, or — with trailing
+characters allowed — the longest such prefix.  `toDouble neg sub` is the libc model's conversion of that
+exact value to `double` (round to nearest even, ±inf + ERANGE on overflow, ERANGE on a tiny inexact result).
 
-What is proved (`…_partial`): exactly that statement with "the libc model `Model.Strtod.strtod`
-converted a non-empty prefix (all of the string unless `trailing`) to the `double` `r.val`" in
-place of "`FAccepts` … correctly rounded value".  Missing: a relational grammar for floating numerals
-with the theorem that `Model.Strtod.strtod` consumes its longest member and returns its nearest
-`double`.  `strtod` is libc (trusted, modelled); model and real libc are compared on every run (L1),
-including rounding on inexact decimals and midpoints.  The part of the property that is
-`parsenum.h`'s own — classification of the target as floating point, the malformed / range / errno
-logic, NaN passing every bound, the narrowing assignment — is what these theorems cover. -/
+Full statement: as below with "`toDouble` is the correctly rounded value".  The theorems are named
+`…_partial` because exactly that is missing: `Model.Strtod.roundTo` is an *implementation* of
+round-to-nearest-even that is not proved to return the nearest representable number (P3 `strtod_nearest`
+in the design); it is compared with the real libc on every run (exact values, inexact decimals,
+midpoints between adjacent doubles, double → float double rounding, overflow).  Everything else — the
+grammar, longest-prefix behaviour, the malformed / range / errno logic of `parsenum.h`, the
+classification of the target as floating point, NaN passing every bound, the narrowing assignment —
+is proved for all strings and bounds. -/
 
 section floats
-open Percival.Model.Strtod Percival.Model.ParsenumFloat Percival.Proofs.ParsenumFloat
+open Percival.Spec.FloatNumeral Percival.Model.Strtod Percival.Model.ParsenumFloat Percival.Proofs.ParsenumFloat
 
+/-- Success with `v` exactly when the string is a floating numeral whose `double` value lies within the
+    bounds (no overflow / underflow reported), `v` being that value stored into the target. -/
 theorem parsenum_float_ok_iff_partial (t : FTy) (bs : List UInt8) (min max : Fl) (trailing : Bool) (v : Fl) :
     Model.ParsenumFloat.parsenum t bs min max 0 trailing = .ok v ↔
-      (strtod (cstr bs)).endOff ≠ 0 ∧
-      (trailing = true ∨ (strtod (cstr bs)).endOff = (cstr bs).length) ∧
-      (strtod (cstr bs)).errno = .ok ∧
-      Fl.lt (strtod (cstr bs)).val min = false ∧ Fl.lt max (strtod (cstr bs)).val = false ∧
-      v = fstore t (strtod (cstr bs)).val := by
-  unfold Model.ParsenumFloat.parsenum; rw [ex6_float]; exact expectedF_ok_iff _ _ _ _ _ _ _
+      ∃ neg sub, FAccepts trailing (cstr bs) neg sub ∧ (toDouble neg sub).2 = .ok ∧
+        Fl.lt (toDouble neg sub).1 min = false ∧ Fl.lt max (toDouble neg sub).1 = false ∧
+        v = fstore t (toDouble neg sub).1 := by
+  unfold Model.ParsenumFloat.parsenum; rw [ex6_float, expectedF_ok_iff]
+  constructor
+  · rintro ⟨h1, h2, h3, h4, h5, h6⟩
+    obtain ⟨neg, sub, hacc⟩ := (consumed_iff trailing (cstr bs)).mp ⟨h1, h2⟩
+    obtain ⟨e1, e2⟩ := strtod_of_accepts hacc
+    exact ⟨neg, sub, hacc, e2 ▸ h3, e1 ▸ h4, e1 ▸ h5, e1 ▸ h6⟩
+  · rintro ⟨neg, sub, hacc, h3, h4, h5, h6⟩
+    obtain ⟨h1, h2⟩ := (consumed_iff trailing (cstr bs)).mpr ⟨neg, sub, hacc⟩
+    obtain ⟨e1, e2⟩ := strtod_of_accepts hacc
+    exact ⟨h1, h2, e2 ▸ h3, e1 ▸ h4, e1 ▸ h5, e1 ▸ h6⟩
 
 -- "0x1.8p1" into a double within [0, 2^10]: 3
 example : (Model.ParsenumFloat.parsenum .f64 [0x30, 0x78, 0x31, 0x2e, 0x38, 0x70, 0x31] (.fin false 0) (.fin false 1024) 0 false
     matches .ok (.fin false 3)) = true := by decide +kernel
+example : FAccepts false [0x2d, 0x2e, 0x35] true (.num ((5 : Rat) * ratPow 10 (0 - 1))) :=       -- "-.5"
+  ⟨⟨[], .minus, .dec ⟨[], true, [0x35], none⟩⟩, rfl, by simp, rfl, 5, 1, 0, ⟨by simp, by simp, by decide, rfl, rfl⟩, rfl⟩
 
-theorem parsenum_float_einval_iff_partial (t : FTy) (bs : List UInt8) (min max : Fl) (trailing : Bool) :
+/-- EINVAL exactly when the string is not (does not start with) a floating numeral. -/
+theorem parsenum_float_einval_iff (t : FTy) (bs : List UInt8) (min max : Fl) (trailing : Bool) :
     Model.ParsenumFloat.parsenum t bs min max 0 trailing = .einval ↔
-      ((strtod (cstr bs)).endOff = 0 ∨
-       (trailing = false ∧ (strtod (cstr bs)).endOff ≠ (cstr bs).length)) := by
-  unfold Model.ParsenumFloat.parsenum; rw [ex6_float]; exact expectedF_einval_iff _ _ _ _ _ _ (strtod_errno _)
+      ¬ ∃ neg sub, FAccepts trailing (cstr bs) neg sub := by
+  unfold Model.ParsenumFloat.parsenum
+  rw [ex6_float, expectedF_einval_iff _ _ _ _ _ _ (strtod_errno _), ← consumed_iff]
+  cases trailing <;> simp <;> omega
 
 -- "1e" : only "1" is a numeral
 example : (Model.ParsenumFloat.parsenum .f64 [0x31, 0x65] (.inf true) (.inf false) 0 false matches .einval) = true := by
   decide +kernel
 
+/-- ERANGE exactly when the string is a floating numeral whose `double` value is outside the bounds or
+    whose conversion overflowed / underflowed. -/
 theorem parsenum_float_erange_iff_partial (t : FTy) (bs : List UInt8) (min max : Fl) (trailing : Bool) :
     Model.ParsenumFloat.parsenum t bs min max 0 trailing = .erange ↔
-      (strtod (cstr bs)).endOff ≠ 0 ∧
-      (trailing = true ∨ (strtod (cstr bs)).endOff = (cstr bs).length) ∧
-      (Fl.lt (strtod (cstr bs)).val min = true ∨ Fl.lt max (strtod (cstr bs)).val = true ∨
-        (strtod (cstr bs)).errno = .erange) := by
-  unfold Model.ParsenumFloat.parsenum; rw [ex6_float]; exact expectedF_erange_iff _ _ _ _ _ _
+      ∃ neg sub, FAccepts trailing (cstr bs) neg sub ∧
+        (Fl.lt (toDouble neg sub).1 min = true ∨ Fl.lt max (toDouble neg sub).1 = true ∨
+          (toDouble neg sub).2 = .erange) := by
+  unfold Model.ParsenumFloat.parsenum; rw [ex6_float, expectedF_erange_iff]
+  constructor
+  · rintro ⟨h1, h2, h3⟩
+    obtain ⟨neg, sub, hacc⟩ := (consumed_iff trailing (cstr bs)).mp ⟨h1, h2⟩
+    obtain ⟨e1, e2⟩ := strtod_of_accepts hacc
+    exact ⟨neg, sub, hacc, e1 ▸ e2 ▸ h3⟩
+  · rintro ⟨neg, sub, hacc, h3⟩
+    obtain ⟨h1, h2⟩ := (consumed_iff trailing (cstr bs)).mpr ⟨neg, sub, hacc⟩
+    obtain ⟨e1, e2⟩ := strtod_of_accepts hacc
+    exact ⟨h1, h2, e1 ▸ e2 ▸ h3⟩
 
 -- "1e400" overflows (strtod's own ERANGE survives); "5" is above max = 4
 example : (Model.ParsenumFloat.parsenum .f64 [0x31, 0x65, 0x34, 0x30, 0x30] (.inf true) (.inf false) 0 false matches .erange) = true := by
@@ -154,19 +177,25 @@ example : (Model.ParsenumFloat.parsenum .f64 [0x31, 0x65, 0x34, 0x30, 0x30] (.in
 example : (Model.ParsenumFloat.parsenum .f32 [0x35] (.fin false 0) (.fin false 4) 0 true matches .erange) = true := by
   decide +kernel
 
+/-- what an accepted string denotes is unique, so the three cases are exclusive -/
+theorem faccepts_value_unique (trailing : Bool) (s : List UInt8) (neg neg' : Bool) (sub sub' : Subject)
+    (h1 : FAccepts trailing s neg sub) (h2 : FAccepts trailing s neg' sub') : neg = neg' ∧ sub = sub' :=
+  faccepts_unique h1 h2
+
+example : FAccepts true [0x69, 0x4e, 0x66, 0x69] false .inf := by            -- "iNfi": "iNf" + "i"
+  rw [Percival.Proofs.FloatNumeral.faccepts_iff_scan]; exact ⟨3, by decide +kernel, Or.inl rfl⟩
+
 /-- NaN passes any bounds (as the repository's own test suite expects: `"nAn"` within `[0, 0]`). -/
-theorem parsenum_float_nan_passes_bounds (t : FTy) (bs : List UInt8) (min max : Fl) (trailing : Bool)
-    (hnan : (strtod (cstr bs)).val = .nan) (hend : (strtod (cstr bs)).endOff ≠ 0)
-    (htr : trailing = true ∨ (strtod (cstr bs)).endOff = (cstr bs).length)
-    (herr : (strtod (cstr bs)).errno = .ok) :
+theorem parsenum_float_nan_passes_bounds (t : FTy) (bs : List UInt8) (min max : Fl) (trailing neg : Bool)
+    (h : FAccepts trailing (cstr bs) neg .nan) :
     Model.ParsenumFloat.parsenum t bs min max 0 trailing = .ok (fstore t .nan) := by
   rw [parsenum_float_ok_iff_partial]
-  refine ⟨hend, htr, herr, ?_, ?_, by rw [hnan]⟩ <;> rw [hnan]
-  · exact (nan_not_lt min).1
-  · exact (nan_not_lt max).2
+  exact ⟨neg, .nan, h, rfl, (nan_not_lt min).1, (nan_not_lt max).2, rfl⟩
 
 example : (Model.ParsenumFloat.parsenum .f64 [0x6e, 0x41, 0x6e] (.fin false 0) (.fin false 0) 0 false matches .ok .nan) = true := by
   decide +kernel
+example : FAccepts false [0x6e, 0x41, 0x6e] false .nan :=
+  ⟨⟨[], .none, .nan [0x6e, 0x41, 0x6e] none⟩, rfl, by simp, rfl, by decide, by simp, rfl⟩
 
 /-- documented misuse: a floating-point target with `base != 0` ends in `ASSERT_FAIL` -/
 theorem parsenum_float_base_nonzero_aborts (t : FTy) (bs : List UInt8) (min max : Fl) (base : Nat)
